@@ -4,6 +4,8 @@ import (
 	"bytes"
 	"encoding/json"
 	"fmt"
+	"maps"
+	"slices"
 	"strings"
 
 	"github.com/cedar-policy/cedar-go/internal/consts"
@@ -138,7 +140,9 @@ func (j arrayJSON) ToNode() (ast.Node, error) {
 
 func (j recordJSON) ToNode() (ast.Node, error) {
 	var nodes ast.Pairs
-	for k, v := range j {
+	// Build the pairs in key order: the decoded AST (and its Cedar text) must not depend on map iteration order.
+	for _, k := range slices.Sorted(maps.Keys(j)) {
+		v := j[k]
 		n, err := v.ToNode()
 		if err != nil {
 			return ast.Node{}, fmt.Errorf("error in record: %w", err)
